@@ -16,15 +16,27 @@ import (
 	"golang.org/x/sys/unix"
 )
 
-// census returns the sorted descriptor numbers open in this process, read
-// from /proc/self/fd with raw system calls (the descriptor used for reading
-// the directory is left out).
+// censusLo is the lowest descriptor number the census looks at. It is 0 except
+// in the high-descriptor mode (see high.go), where every number below it is
+// either permanent infrastructure of the harness or a placeholder, both
+// watched by lowCheck instead.
+var censusLo = 0
+
+// census returns the sorted descriptor numbers >= censusLo open in this
+// process, read from /proc/self/fd with raw system calls (the descriptor used
+// for reading the directory is left out).
 func census() []int {
 	dfd, err := syscall.Open("/proc/self/fd", syscall.O_RDONLY|syscall.O_DIRECTORY|syscall.O_CLOEXEC, 0)
 	if err != nil {
 		panic(fmt.Sprintf("census: open /proc/self/fd: %v", err))
 	}
 	defer syscall.Close(dfd)
+	if censusLo > 0 {
+		// the directory position of descriptor n is n + 2 ("." and ".." come first): skip the placeholders
+		if _, err := syscall.Seek(dfd, int64(censusLo+2), 0); err != nil {
+			panic(fmt.Sprintf("census: lseek /proc/self/fd: %v", err))
+		}
+	}
 	var res []int
 	buf := make([]byte, 8192)
 	for {
@@ -49,7 +61,7 @@ func census() []int {
 					break
 				}
 			}
-			if v, err := strconv.Atoi(string(name)); err == nil && v != dfd {
+			if v, err := strconv.Atoi(string(name)); err == nil && v != dfd && v >= censusLo {
 				res = append(res, v)
 			}
 			b = b[reclen:]
@@ -116,6 +128,9 @@ func maxOf(a []int) int {
 func plugHoles() []int {
 	c := census()
 	hi := maxOf(c)
+	if hi < censusLo-1 {
+		hi = censusLo - 1
+	}
 	var plugs []int
 	for {
 		fd, err := syscall.Open("/dev/null", syscall.O_RDONLY|syscall.O_CLOEXEC, 0)
@@ -142,6 +157,9 @@ func closeAll(fds []int) {
 func withLimit(k int, fn func()) {
 	plugs := plugHoles()
 	hi := maxOf(census())
+	if hi < censusLo-1 {
+		hi = censusLo - 1
+	}
 	var old syscall.Rlimit
 	if err := syscall.Getrlimit(syscall.RLIMIT_NOFILE, &old); err != nil {
 		panic(err)
